@@ -161,6 +161,11 @@ pub fn curated() -> Vec<(&'static str, Spec, bool)> {
     add("la_refused_cont", true, vec![r(r"r(?-u:\b)"), r("r[0-9A-Za-z_]!"), r("[a-z?]").prio(1)]);
     add("la_refused_cont2", true, vec![r("if(?m:$)"), r("if[^\\n]x"), r("[a-z ]").prio(1), t("\n")]);
     add("la_refused_cont3", false, vec![r(r"k(?-u:\B)"), r("k[^0-9A-Za-z_];"), Pat::bregex(b"[\\x00-\\xff]").prio(1)]);
+    // alternations with an empty / optional-only branch (also the ones regex-syntax creates by
+    // factoring out a common prefix) next to a literal token matched through that branch
+    add("alt_empty_branch", true, vec![r("(_*|r#)[a-z]+"), t("if")]);
+    add("alt_empty_branch2", true, vec![r("foo|foobar"), t("foo").prio(9), r("[a-z]+").prio(1)]);
+    add("alt_empty_branch3", true, vec![r("(|x)y"), r("(a?|bc)d"), t("y").prio(9), t("d").prio(9)]);
     // skips recognised by a late-accept state (the skip ends in a look-ahead assertion)
     add("skip_la_eol", true, vec![s("//[^\n]*(?m:$)").greedy(), r("[a-z]+"), t("\n"), t("/")]);
     add("skip_la_end", true, vec![s("#[a-z]*$"), r("[a-z]+"), t("#").prio(1)]);
